@@ -139,6 +139,7 @@ WaveletTree *WaveletTree::load(std::istream &fp) {
     return NULL;
   WaveletTree *ret = new WaveletTree();
   ret->n = loadValue<size_t>(fp);
+  ret->length = ret->n;
   ret->c = wt_coder::load(fp);
   ret->c->use();
   assert(ret->c != NULL);
